@@ -89,6 +89,13 @@ THEOREMS = [
     "Verif.C20.hydro_bulk_tends_to_lorentzian",
     "Verif.C20.salt_joins_water",
     "Verif.C20.bisect_brackets_sign_change",
+    # deepening round D
+    "Verif.C20.salt_zero_pressure_viscosity_increases_with_concentration",
+    "Verif.C20.salt_viscosity_increases_with_concentration",
+    "Verif.C20.salt_density_increases_with_concentration",
+    "Verif.C20.salt_models_join_water_continuously",
+    "Verif.C20.hydro_bulk_small_bead_limit",
+    "Verif.C20.passive_init_wall_drag_exceeds_bulk",
 ]
 RULE = (
     "corpus (reference points, boundary inputs) + fixed dense log-spaced grids over the property's domain (f 0.1 Hz-100 kHz, "
